@@ -6,16 +6,84 @@ import os
 HERE = os.path.dirname(os.path.dirname(os.path.abspath(__file__)))
 
 # id: (engine, technique, level text, level note, design section)
+MC = ('Bounded-exhaustive model checking on the real code: every element of '
+      'an explicitly bounded space is executed by the implementation and '
+      'compared with an independent reference model (mc/refcodec.py, '
+      'mc/spec_table.py); no sampling decides the verdict. ')
+TB = ('Trusted: the hand-written reference codec / spec table, the finite '
+      'alphabets standing for infinite value domains, CPython. ')
+
 CHECKS = {
-    'C01': ('E1', 'bounded-exhaustive enumeration (full argument product) on '
-            'the real code vs reference model',
-            'Every element of the full cartesian product of boundary '
-            'alphabets for all 64 method classes (all 2^k bit combinations) '
-            'is encoded and decoded by the real library and compared with '
-            'the documented normalisation of the input; exhaustive within '
-            'the stated alphabets.',
-            'Alphabets (mc/alphabets.py) stand for the infinite value '
-            'domains; spec table transcribed by hand.', '3/C01'),
+    'C01': ('E1', 'explicit-state enumeration: full argument product per '
+            'method class, executed on the implementation, vs reference model',
+            MC + 'C01: full cartesian product of boundary alphabets for all '
+            '64 method classes (all 2^k bit combinations) x channels; '
+            'round-trip compared with the documented normalisation.',
+            TB, '3/C01'),
+    'C02': ('E1', 'explicit-state enumeration: all 8192 presence subsets x '
+            'alternative values, on the implementation, vs reference model',
+            MC + 'C02: all 2^13 presence subsets, every alternative value of '
+            'every property against subsets of the others, pairs, the empty-'
+            'string spelling, body size x channel.', TB, '3/C02'),
+    'C03': ('E1', 'explicit-state enumeration of field values: boundary '
+            'scalars x positions, all tree shapes <= N nodes, all L/D chains',
+            MC + 'C03: every boundary scalar at three positions, every '
+            'ordered tree shape up to 5 (7) nodes with every list/dict '
+            'labelling, every chain up to depth 10 (14), depth 32.', TB,
+            '3/C03'),
+    'C04': ('E1', 'explicit-state enumeration (C01+C02+C03+C18 spaces); '
+            'byte-for-byte comparison with an independent reference encoder',
+            MC + 'C04: every output byte of every encoder entry point over '
+            'the union of the C01, C02, C03 spaces and bodies/heartbeat/'
+            'protocol header equals the reference encoder.', TB, '3/C04'),
+    'C05': ('E1', 'reference-generator enumeration of grammar-valid frames '
+            '(all tags, all 8/16-bit payloads, liberties) decoded by both '
+            'decoders', MC + 'C05: wire frames the library never emits, '
+            'generated from the grammar, decoded by the reference decoder '
+            'and by the library, results compared.', TB, '3/C05'),
+    'C06': ('E2', 'explicit-state exploration of the receive loop: all frame '
+            'sequences <= n over K_seq x all (consumed, received) states; '
+            'envelope invariant over all E4 inputs',
+            MC + 'C06: every (c, r) state of every frame sequence up to '
+            'length 3 (4) over a 15-frame adversarial set, every corpus '
+            'frame x 9 trailers, envelope clause on every successfully '
+            'decoded input of the fault spaces.', TB +
+            'Purity of unmarshal (C16) collapses chunkings to (c, r).',
+            '3/C06'),
+    'C07': ('E4', 'exhaustive crash-point enumeration: every valid corpus '
+            'frame x every cut point', MC + 'C07: every strict prefix of '
+            'every corpus frame (1.7 M distinct prefixes in quick) must raise '
+            'UnmarshalingException.', TB + 'Frames above 4096 bytes are cut '
+            'at a structural subset of offsets.', '3/C07'),
+    'C08': ('E4+E5', 'exhaustive fault enumeration (corruptions, every length '
+            'rewrite, small strings in envelopes) under a deterministic step '
+            'budget monitor', MC + 'C08: every input of the E4 fault spaces '
+            'is decoded under a step monitor (calls + jumps inside pamqp); '
+            'budget 256 + 16*len; tracemalloc peak <= 1 MiB + 1024*len.',
+            TB + 'Work measured in interpreter-level steps, not C-level '
+            'work.', '3/C08'),
+    'C09': ('E4', 'exhaustive fault enumeration: single-byte corruptions, '
+            'field rewrites, truncations, small strings in envelopes, header '
+            'shapes', MC + 'C09: every input of the E4 fault spaces either '
+            'decodes or raises UnmarshalingException.', TB, '3/C09'),
+    'C14': ('E1', 'complete enumeration of a finite catalogue against a '
+            'transcribed specification table', MC + 'C14: every fact of all '
+            '64 classes and Basic.Properties (1600+ facts) compared with the '
+            'spec table, statically and behaviourally.', TB, '3/C14'),
+    'C17': ('E1', 'complete enumeration of reply codes and constants against '
+            'a transcribed table', MC + 'C17: all 18 reply codes and all '
+            'protocol constants, statically and behaviourally.', TB,
+            '3/C17'),
+    'C18': ('E1', 'explicit-state enumeration of bodies (all 1-2 byte '
+            'strings, all strings <= 6/7 over 9 symbols), channels, 256^3 '
+            'version triples', MC + 'C18: bodies, heartbeats and protocol '
+            'headers round-trip and equal the reference bytes.', TB,
+            '3/C18'),
+    'C20': ('E4', 'exhaustive enumeration of header byte patterns + client '
+            'procedure over every library-encoded corpus frame',
+            MC + 'C20: frame_parts on every short buffer and 5^7 + 7x256x5 '
+            'header patterns x trailers; read-7/peek/read-size+1/decode on '
+            'every encoded corpus frame.', TB, '3/C20'),
 }
 
 NOT_BUILT = 'check not built yet in this session (planned, see DESIGN.md)'
